@@ -21,8 +21,8 @@ OWN = os.path.join(vlib.ROOT, 'certs')
 CERTS = {}
 
 
-def _reg(name, cert, key, issuer, validity, san, roles):
-    CERTS[name] = {'cert': cert, 'key': key, 'issuer': issuer, 'validity': validity, 'san': san, 'roles': roles, 'name': name}
+def _reg(name, cert, key, issuer, validity, san, roles, cn='DO NOT USE', chain=None):
+    CERTS[name] = {'cert': cert, 'key': key, 'issuer': issuer, 'validity': validity, 'san': san, 'roles': roles, 'name': name, 'cn': cn, 'chain': chain}
 
 
 def _init_certs():
@@ -37,6 +37,11 @@ def _init_certs():
                                ('client_notyet', 'notyet', None, ['operator']), ('client_otherrole', 'ok', None, ['viewer']),
                                ('client_roleless', 'ok', 'client.example', []), ('client_tworoles', 'ok', None, ['operator', 'engineer'])]:
         _reg(f'ca2/{n}', f'{o}/ca2/{n}_cert.pem', f'{o}/ca2/{n}_key.pem', 'ca2', val, san, roles)
+    # name handling (SAN-or-CN) and an intermediate authority
+    _reg('ca2/server_cnonly', f'{o}/ca2/server_cnonly_cert.pem', f'{o}/ca2/server_cnonly_key.pem', 'ca2', 'ok', None, [], cn='test.com')
+    _reg('ca2/server_sanother_cntest', f'{o}/ca2/server_sanother_cntest_cert.pem', f'{o}/ca2/server_sanother_cntest_key.pem', 'ca2', 'ok', 'other.example', [], cn='test.com')
+    _reg('ca2/server_viaint', f'{o}/ca2/server_viaint_cert.pem', f'{o}/ca2/server_viaint_key.pem', 'ca2-int', 'ok', 'test.com', [], chain=f'{o}/ca2/int_cert.pem')
+    _reg('ca2/client_viaint', f'{o}/ca2/client_viaint_cert.pem', f'{o}/ca2/client_viaint_key.pem', 'ca2-int', 'ok', None, ['operator'], chain=f'{o}/ca2/int_cert.pem')
     for n, val, san, roles in [('client', 'ok', None, ['operator']), ('client_expired', 'expired', None, ['operator']),
                                ('client_notyet', 'notyet', None, ['operator']), ('client_otherrole', 'ok', None, ['viewer']),
                                ('client_roleless', 'ok', 'client.example', []), ('server', 'ok', 'test.com', []),
@@ -62,14 +67,25 @@ def cell(side, mn, mode, authz, name, trust, local, peer, offer, presented, labe
 
 def truth(c):
     """ground truth about the presented certificate relative to the endpoint's configuration"""
-    p = CERTS.get(c['presented']) if c['presented'] else None
+    pname, with_chain = presented_of(c)
+    p = CERTS.get(pname) if pname else None
     if p is None:
         return dict(chains=False, identical=False, valid=False, name=False, roles=[], offers12=False, offers13=False)
-    chains = c['mode'] == 'ca' and p['issuer'] == c['trust']
-    identical = c['mode'] == 'ss' and c['presented'] == c['trust']
-    name_ok = bool(c['name']) and p['san'] == c['name']
+    # a certificate issued by the intermediate chains to the authority iff the intermediate is presented with it
+    chains = c['mode'] == 'ca' and (p['issuer'] == c['trust'] or (with_chain and p['issuer'] == c['trust'] + '-int'))
+    identical = c['mode'] == 'ss' and pname == c['trust']
+    # SAN-or-CN: the subjectAltName decides when there is one, otherwise the common name
+    name_ok = bool(c['name']) and ((p['san'] == c['name']) if p['san'] else (p['cn'] == c['name']))
     return dict(chains=chains, identical=identical, valid=p['validity'] == 'ok', name=name_ok, roles=p['roles'],
                 offers12=c['offer'] in ('12', 'both'), offers13=c['offer'] in ('13', 'both'))
+
+
+def presented_of(c):
+    """(certificate name, presented together with its intermediate)"""
+    n = c['presented']
+    if n and n.endswith('+chain'):
+        return n[:-6], True
+    return n, False
 
 
 def harness_line(c):
@@ -78,7 +94,8 @@ def harness_line(c):
     t = [f'side={c["side"]}', f'min={c["min"]}', f'mode={c["mode"]}', f'authz={int(c["authz"])}', f'name={c["name"] or "-"}',
          f'trust={trust}', f'cert={loc["cert"]}', f'key={loc["key"]}', f'peer={c["peer"]}', f'offer={c["offer"]}']
     if c['presented']:
-        p = CERTS[c['presented']]
+        pname, with_chain = presented_of(c)
+        p = CERTS[pname]
         # what the PEER trusts: whatever makes it accept the endpoint under test (the peer is not under test)
         if c['mode'] == 'ca':
             ptrust = CA_FILES[loc['issuer']] if loc['issuer'] in CA_FILES else loc['cert']
@@ -86,7 +103,12 @@ def harness_line(c):
         else:
             ptrust = loc['cert']
             pmode = 'ss'
-        t += [f'pmode={pmode}', f'ptrust={ptrust}', f'pcert={p["cert"]}', f'pkey={p["key"]}', 'pauthz=0']
+        pcert = p['cert']
+        if with_chain and c['peer'] == 'rodbus':
+            pcert = p['cert'].replace('_cert.pem', '_fullchain.pem')      # leaf + intermediate in one file
+        t += [f'pmode={pmode}', f'ptrust={ptrust}', f'pcert={pcert}', f'pkey={p["key"]}', 'pauthz=0']
+        if with_chain and c['peer'] == 'openssl':
+            t.append(f'pchain={p["chain"]}')
         if c['side'] in ('server', 'ffiserver') and pmode == 'ca':
             t.append(f'pname={loc["san"] or "-"}')
     return ' '.join(t)
@@ -124,6 +146,7 @@ def grid(full):
         ('expired', 'ca2', 'ca2/server', 'ca2/client_expired'), ('not-yet-valid', 'ca2', 'ca2/server', 'ca2/client_notyet'),
         ('role-less', 'ca2', 'ca2/server', 'ca2/client_roleless'), ('other-role', 'ca2', 'ca2/server', 'ca2/client_otherrole'),
         ('two-roles', 'ca2', 'ca2/server', 'ca2/client_tworoles'),
+        ('via-intermediate', 'ca2', 'ca2/server', 'ca2/client_viaint+chain'), ('missing-intermediate', 'ca2', 'ca2/server', 'ca2/client_viaint'),
     ]
     server_ss = [  # (label, configured peer cert, local, presented)
         ('valid', 'repo/entity1', 'repo/entity2', 'repo/entity1'), ('valid2', 'ss/client', 'ss/server', 'ss/client'),
@@ -151,6 +174,8 @@ def grid(full):
         ('no-name-expected', None, 'ca2', 'ca2/client', 'ca2/server_wrongname'),
         ('wrong-authority', 'test.com', 'ca2', 'ca2/client', 'repo/server'), ('wrong-authority2', 'test.com', 'repoCA', 'repo/client', 'ca2/server'),
         ('expired', 'test.com', 'ca2', 'ca2/client', 'ca2/server_expired'), ('not-yet-valid', 'test.com', 'ca2', 'ca2/client', 'ca2/server_notyet'),
+        ('name-in-cn-no-san', 'test.com', 'ca2', 'ca2/client', 'ca2/server_cnonly'), ('name-in-cn-but-other-san', 'test.com', 'ca2', 'ca2/client', 'ca2/server_sanother_cntest'),
+        ('via-intermediate', 'test.com', 'ca2', 'ca2/client', 'ca2/server_viaint+chain'), ('missing-intermediate', 'test.com', 'ca2', 'ca2/client', 'ca2/server_viaint'),
     ]
     client_ss = [  # (label, configured peer cert, local, presented)
         ('valid', 'repo/entity2', 'repo/entity1', 'repo/entity2'), ('valid2', 'ss/server', 'ss/client', 'ss/server'),
@@ -254,6 +279,7 @@ def run(ctx):
     both = ctx.coq_eval(REQ, FN, [to_coq(c) for c in cells], case_type=CASE_T, preamble='Local Open Scope string_scope.', per_shard=60)
     # a failing cell is repeated once on its own (process start-up races of the external peer), outcome only
     suspects = [k for k, (c, i, b) in enumerate(zip(cells, impl, both)) if judge(c, i, b.split('#')[1]) or judge(c, i, b.split('#')[0])]
+    repeated_detail = [[cells[k]['side'], cells[k]['label'], cells[k]['peer'], cells[k]['offer'], impl[k], both[k].split('#')[1]] for k in suspects[:8]]
     if suspects:
         again = ctx.harness('tls', [harness_line(cells[k]) for k in suspects], args=[OPENSSL], shards=1, timeout=900)
         for k, i2 in zip(suspects, again):
@@ -295,7 +321,8 @@ def run(ctx):
             classes[k] = classes.get(k, 0) + 1
     if not ctx.replay:
         need = ['side:server', 'side:client', 'side:ffiserver', 'side:fficlient', 'min:12', 'min:13', 'mode:ca', 'mode:ss', 'peer:openssl', 'peer:rodbus', 'peer:plain', 'offer:12', 'offer:13',
-                'offer:both', 'cert:valid', 'cert:wrong-authority', 'cert:wrong-name', 'cert:expired', 'cert:not-yet-valid', 'cert:role-less', 'cert:other-role', 'cert:two-roles',
+                'offer:both', 'cert:valid', 'cert:wrong-authority', 'cert:wrong-name', 'cert:expired', 'cert:not-yet-valid', 'cert:role-less', 'cert:other-role', 'cert:two-roles', 'cert:via-intermediate', 'cert:missing-intermediate', 'cert:name-in-cn-no-san',
+                'cert:name-in-cn-but-other-san',
                 'expected:OK', 'expected:REFUSED']
         ctx.oblige('grid-reaches-expected-classes', all(classes.get(k, 0) >= 1 for k in need), str({k: classes.get(k, 0) for k in need}))
     ctx.coverage.update({
@@ -307,4 +334,5 @@ def run(ctx):
         'exhaustive': True,
         'grid': 'full grid of the property (see rule), every cell; quick: one sweep, thorough: three sweeps in different orders',
         'repeated_cells': len(suspects),
+        'repeated_detail': repeated_detail,
     })
